@@ -84,6 +84,10 @@ func flipOp(op string) string {
 
 // c04Col writes a column reference; a name that is no plain word is given as a quoted (literal) key
 func c04Col(alias, name string) string {
+	if strings.Contains(name, ".") {
+		// a path into a nested object: x.`o.n`
+		return fmt.Sprintf("%s.`%s`", alias, name)
+	}
 	for _, r := range name {
 		if !(r == '_' || r >= '0' && r <= '9' || r >= 'a' && r <= 'z' || r >= 'A' && r <= 'Z') {
 			return fmt.Sprintf("%s.`'%s'`", alias, name)
@@ -127,9 +131,18 @@ func cmpScalars(a, b any) int {
 	panic("c04: unexpected scalar kind")
 }
 
+// c04Get reads a key column: "o.n" is the n of the row's nested object o
+func c04Get(row map[string]any, col string) any {
+	if i := strings.Index(col, "."); i > 0 {
+		o, _ := row[col[:i]].(map[string]any)
+		return o[col[i+1:]]
+	}
+	return row[col]
+}
+
 func (n *c04Node) eval(l, r map[string]any) bool {
 	if n.Leaf != nil {
-		c := cmpScalars(l[n.Leaf.L], r[n.Leaf.R])
+		c := cmpScalars(c04Get(l, n.Leaf.L), c04Get(r, n.Leaf.R))
 		switch n.Leaf.Op {
 		case "=":
 			return c == 0
@@ -198,14 +211,15 @@ func genC04(t *rapid.T) *Bundle {
 	// differs from pair order
 	npairs := rapid.IntRange(1, 3).Draw(t, "npairs")
 	// (names that are no plain words - "k-1", "user id" - are written as quoted keys)
-	lnames := rapid.Permutation([]string{"a", "z", "m", "k", "k-1"}).Draw(t, "lnames")[:npairs]
-	rnames := rapid.Permutation([]string{"m", "b", "a", "c", "user id"}).Draw(t, "rnames")[:npairs]
+	// names with upper-case letters, and paths into a nested object (o.n is the n of the row's o)
+	lnames := rapid.Permutation([]string{"a", "z", "m", "k", "k-1", "UserId", "o.n"}).Draw(t, "lnames")[:npairs]
+	rnames := rapid.Permutation([]string{"m", "b", "a", "c", "user id", "UserId", "p.q"}).Draw(t, "rnames")[:npairs]
 	using := rapid.IntRange(0, 7).Draw(t, "using") == 0
 	if using {
 		// USING takes plain identifiers
 		for i, nm := range lnames {
-			if strings.ContainsAny(nm, "- ") {
-				lnames[i] = fmt.Sprintf("w%d", i)
+			if strings.ContainsAny(nm, "- .") {
+				lnames[i] = fmt.Sprintf("Wide%d", i)
 			}
 		}
 		rnames = append([]string{}, lnames...)
@@ -285,6 +299,23 @@ func genC04(t *rapid.T) *Bundle {
 				r.(map[string]any)[oname] = fmt.Sprintf("k%03d", (i*17)%n)
 			} else {
 				r.(map[string]any)[oname] = float64((i*17)%n + 1)
+			}
+		}
+	}
+	// keys named by a path live in a nested object
+	for _, rows := range [][]any{left, right} {
+		for _, r := range rows {
+			row := r.(map[string]any)
+			for k, v := range row {
+				if i := strings.Index(k, "."); i > 0 {
+					delete(row, k)
+					o, _ := row[k[:i]].(map[string]any)
+					if o == nil {
+						o = map[string]any{}
+						row[k[:i]] = o
+					}
+					o[k[i+1:]] = v
+				}
 			}
 		}
 	}
